@@ -266,12 +266,34 @@ func (s *Service) Start(
 	ctx context.Context,
 	pipelineID string,
 ) error {
+	return s.start(ctx, pipelineID, nil)
+}
+
+// errSuperseded is returned by start when the run it was asked to restart is
+// no longer the published run of its pipeline.
+var errSuperseded = cerrors.New("run has been superseded")
+
+// start is Start; if onlyIfCurrent is not nil (error recovery restarting that
+// run) it starts the pipeline only if that run is still the published one,
+// checked under the start lock: a user Start that was under way while the
+// restart waited for the lock has replaced it, and its run - or that run's own
+// recovery - owns the pipeline now.
+func (s *Service) start(
+	ctx context.Context,
+	pipelineID string,
+	onlyIfCurrent *runnablePipeline,
+) error {
 	// One start per pipeline at a time: the status check below and the moment
 	// the pipeline becomes "running" (end of runPipeline) are far apart, and
 	// StatusRecovering admits a user Start while error recovery is about to
 	// restart the pipeline itself.
 	unlock := s.lockStart(pipelineID)
 	defer unlock()
+	if onlyIfCurrent != nil {
+		if cur, ok := s.runningPipelines.Get(pipelineID); !ok || cur != onlyIfCurrent {
+			return errSuperseded
+		}
+	}
 
 	pl, err := s.pipelines.Get(ctx, pipelineID)
 	if err != nil {
@@ -2030,8 +2052,8 @@ func (s *Service) StartWithBackoff(ctx context.Context, rp *runnablePipeline) er
 		return cerrors.FatalError(pipeline.ErrForceStop)
 	}
 
-	if err := s.Start(ctx, rp.pipeline.ID); err != nil {
-		if cerrors.Is(err, pipeline.ErrPipelineRunning) {
+	if err := s.start(ctx, rp.pipeline.ID, rp); err != nil {
+		if cerrors.Is(err, pipeline.ErrPipelineRunning) || cerrors.Is(err, errSuperseded) {
 			// a user Start got in first and the pipeline is running again:
 			// that run owns the pipeline now, there is nothing left to recover
 			return nil
